@@ -219,6 +219,8 @@ def run_once(spec, limit, tag):
         for a in adas:
             a.memory_limit = limit
         prod.outputs["out"].memory_limit = limit
+        if sprod:
+            sprod.outputs["const"].memory_limit = limit
     before_cwd = set(os.listdir("."))
     LEDGER["created"], LEDGER["removed"] = [], []
     LEDGER["on"] = True
